@@ -15,6 +15,7 @@ TP = "des/src/net/topology.rs"
 EV = "des/src/net/runtime/events.rs"
 CTX = "des/src/net/runtime/ctx.rs"
 UW = "des/src/net/runtime/unwind.rs"
+YM = "des-net-utils/src/props/yaml.rs"
 
 # (id, property, file, regex, replacement, expectation)   expectation: "kill" (exit 1 expected) | "keep" (exit 0 expected)
 PACK = [
@@ -55,6 +56,16 @@ PACK = [
     ("cs-no-unbusy-notif", "C07", CH, r"(                self\.set_busy_until\(transmissin_finish\);\n)\n                sink\.add\(\n                    NetEvents::ChannelUnbusyNotif\(ChannelUnbusyNotif \{\n                        channel: self\.clone\(\),\n                    \}\),\n                    transmissin_finish,\n                \);\n", r"\1", "kill"),
     ("eq-cs-is-zero", "C07", CH, r"if busy != Duration::ZERO \{", "if !busy.is_zero() {", "keep"),
     ("eq-cs-swap-calc", "C07", CH, r"(            let dur = metrics\.calculate_duration\(&msg, rng_ref\);\n)(            let busy = metrics\.calculate_busy\(&msg\);\n)", r"\2\1", "keep"),
+    ("cfg-prefix-bare", "C17", YM, r"k\[key\.len\(\)\.\.\]\.starts_with\('\.'\)", "k.len() > key.len()", "kill"),
+    ("cfg-no-any-skip", "C17", YM, r"                    if k\.contains\(ANY\) \{\n                        continue;\n                    \}\n", "", "kill"),
+    ("cfg-dot-at-wrong-index", "C17", YM, r"if i != 0 \{", "if i != 1 {", "kill"),
+    ("cfg-wrong-rest", "C17", YM, r"self\.update_from\(entry, &path\[\(i \+ 1\)\.\.\]\);", "self.update_from(entry, &path[1..]);", "kill"),
+    ("cfg-no-wildcard-step", "C17", YM, r"            if let Some\(value\) = map\.get\(ANY\) \{\n                self\.update_from\(value, &path\[1\.\.\]\);\n            \}\n", "", "kill"),
+    ("cfg-split-any-node", "C17", YM, r"k\.contains\(ANY\) && \*k != ANY", "k.contains(ANY)", "kill"),
+    ("cfg-name-keeps-dot", "C17", YM, r"&matching_key\[\(key\.len\(\) \+ 1\)\.\.\]", "&matching_key[key.len()..]", "kill"),
+    ("cfg-first-prefix-only", "C17", YM, r"(                self\.update_from\(entry, &path\[\(i \+ 1\)\.\.\]\);\n)", r"\1                break;\n", "kill"),
+    ("eq-cfg-len-and-dot", "C17", YM, r"k\.starts_with\(&key\) && k\[key\.len\(\)\.\.\]\.starts_with\('\.'\)", "k.starts_with(&key) && k.len() > key.len() && k[key.len()..].starts_with('.')", "keep"),
+    ("eq-cfg-if-not-any", "C17", YM, r"                    if k\.contains\(ANY\) \{\n                        continue;\n                    \}\n                    self\.set\(k\.clone\(\), v\.clone\(\)\);\n", "                    if !k.contains(ANY) {\n                        self.set(k.clone(), v.clone());\n                    }\n", "keep"),
     ("tp-any-ne", "C19", TP, r"\.any\(\|edge\| edge\.dst == src\)", ".any(|edge| edge.dst != src)", "kill"),
     ("tp-visit-self", "C19", TP, r"visit\(topo, edge\.dst, visited\);", "visit(topo, i, visited);", "kill"),
     ("tp-skip-node0", "C19", TP, r"for start in 0\.\.self\.nodes\.len\(\) \{", "for start in 1..self.nodes.len() {", "kill"),
@@ -85,7 +96,7 @@ PACK = [
     ("eq-take-msg", "C14", PR, r"if let Some\(existing_msg\) = msg \{", "if let Some(existing_msg) = msg.take() {", "keep"),
 ]
 
-FILES = [CQ, RT, LIM, ES, PR, CH, BLD, MT, TP, "des/src/net/path.rs", "des/src/net/message/mod.rs", "des/src/net/message/header.rs", "des/src/net/message/body.rs", "des/src/time/mod.rs",
+FILES = [CQ, RT, LIM, ES, PR, CH, BLD, MT, TP, YM, "des/src/net/path.rs", "des/src/net/message/mod.rs", "des/src/net/message/header.rs", "des/src/net/message/body.rs", "des/src/time/mod.rs",
          "des/src/time/duration.rs", "des/src/macros/cfg.rs", "des/src/runtime/bench.rs", "des/src/runtime/event/types.rs", "des-cqueue/src/stable/linked_list.rs",
          "des-cqueue/src/stable/alloc.rs", "des-cqueue/src/stable/boxed.rs", "des-cqueue/Cargo.toml", "des-cqueue/src/lib.rs"]
 
